@@ -180,6 +180,10 @@ def _codes_witness(tie, mm):
         return {'suite': tie.name, 'input': inp, 'expected': 'legal coding steps run to completion', 'observed': impl,
                 'why': 'sanitizer report / celt_assert while coding or decoding legal Laplace / PVQ steps: '
                 + ' | '.join(mm.get('sanitizer_report', [])[:6])}
+    if m and impl.startswith('ok W') and ' Y ' not in impl:
+        return {'suite': tie.name, 'input': inp, 'expected': 'the decoder side runs to completion on a stream ec_enc_done finished without error',
+                'observed': 'answer ends at: ...' + impl[-120:],
+                'why': 'the decoder side stopped (celt_assert / sanitizer) while decoding legal Laplace / PVQ steps'}
     if not m or not a:
         return None
     codes, wb, dec = m.group(3).split(';'), ([] if a.group(1) == '-' else a.group(1).split(',')), a.group(2).split('|')
